@@ -1,5 +1,6 @@
 import ApdVerif.Model.Arith
-import ApdVerif.Oracle.Round
+import ApdVerif.Oracle.Exact
+import ApdVerif.Oracle.Ops
 import ApdVerif.Driver.Proto
 /-!
 # Model driver: reads harness lines on stdin, runs the model and the specification oracles,
@@ -38,25 +39,13 @@ def runCtxOp (op : String) (c : Ctx) (x y : Dec) (iarg : Int) : Option Out :=
 def exactOf (op : String) (c : Ctx) (x y : Dec) : Option Exact :=
   if x.form != .finite then none else
   match op with
-  | "round" => some { neg := x.neg, num := x.coeff, e10 := x.exp }
-  | "abs" => some { neg := false, num := x.coeff, e10 := x.exp }
-  | "neg" => some { neg := (if x.coeff == 0 then false else !x.neg), num := x.coeff, e10 := x.exp }
-  | "add" | "sub" =>
-    if y.form != .finite then none else
-    let yn := if op == "sub" then !y.neg else y.neg
-    let e := min x.exp y.exp
-    let a := x.coeff * 10 ^ (x.exp - e).toNat
-    let b := y.coeff * 10 ^ (y.exp - e).toNat
-    if x.neg == yn then some { neg := x.neg, num := a + b, e10 := e }
-    else if a > b then some { neg := x.neg, num := a - b, e10 := e }
-    else if a < b then some { neg := yn, num := b - a, e10 := e }
-    else some { neg := (c.mode == .floor), num := 0, e10 := e }
-  | "mul" =>
-    if y.form != .finite then none else
-    some { neg := x.neg != y.neg, num := x.coeff * y.coeff, e10 := x.exp + y.exp }
-  | "quo" =>
-    if y.form != .finite || y.coeff == 0 then none else
-    some { neg := x.neg != y.neg, num := x.coeff, den := y.coeff, e10 := x.exp - y.exp }
+  | "round" => some (exactRound x)
+  | "abs" => some (exactAbs x)
+  | "neg" => some (exactNeg x)
+  | "add" => if y.form != .finite then none else some (exactAdd c x y false)
+  | "sub" => if y.form != .finite then none else some (exactAdd c x y true)
+  | "mul" => if y.form != .finite then none else some (exactMul x y)
+  | "quo" => if y.form != .finite || y.coeff == 0 then none else some (exactQuo x y)
   | _ => none
 
 def fitsOps : List String :=
@@ -72,7 +61,6 @@ def valueEq (a b : Dec) : Bool :=
     (if a.exp ≥ b.exp then a.coeff * 10 ^ (a.exp - b.exp).toNat == b.coeff
      else a.coeff == b.coeff * 10 ^ (b.exp - a.exp).toNat))
 
-def delivered (e : ErrKind) : Bool := e == .none || e == .trap
 
 /-- handle one `ctxop` line; returns the problem lines -/
 def handleCtxOp (id : String) (t : List String) : Option (List String × Nat × Nat) :=
@@ -137,6 +125,8 @@ def handleCtxOp (id : String) (t : List String) : Option (List String × Nat × 
             pf := pf + 1; out := out ++ [s!"{id} PROPFAIL C02 inexact without rounded"]
           if f.overflow && !f.inexact then
             pf := pf + 1; out := out ++ [s!"{id} PROPFAIL C02 overflow without inexact"]
+      for (prop, why) in opOracle op c x.d y.d iarg impl do
+        pf := pf + 1; out := out ++ [s!"{id} PROPFAIL {prop} {why}"]
     pure (out, mm, pf)
   | [_op, _p, _emax, _emin, _traps, _mode, _xs, _ys, _ia, "=>", what] =>
     -- PANIC / HANG
